@@ -4,7 +4,7 @@ against the schema, print a summary. usage: tools/runall.py [quick|thorough] [id
 import json, os, subprocess, sys, time
 ROOT = os.path.dirname(os.path.dirname(os.path.abspath(__file__)))
 tier = sys.argv[1] if len(sys.argv) > 1 and sys.argv[1] in ("quick", "thorough") else "quick"
-ids = [a for a in sys.argv[1:] if a.startswith("C")] or [p["id"] for p in json.load(open(os.path.join(ROOT, "MANIFEST.json")))["properties"]]
+ids = [a for a in sys.argv[1:] if a.startswith("C")] or [p["property_id"] for p in json.load(open(os.path.join(ROOT, "MANIFEST.json")))["checks"]]
 try:
     import jsonschema
     sch = json.load(open("/root/.vp/EVIDENCE.schema.json"))
